@@ -7,7 +7,7 @@ theorem layer (coq/theories/props/C18.v): TERMINATION BOUNDS of the front end's 
     bound for check_type_relation (Rel.v, `current_cfg`) on every bottom-up registry, recursive types
     included (the algorithm that did overflow the stack: F55; the pre-fix variant provably diverges);
     contains_cycle; totality of unescape with the located-error range, normalize_blocks, print.
-    (intersect_types / compute_complement: depth measured only.)
+    intersect_types (fuel 2n+2 suffices), compute_complement (structural fuel beyond 2n+2 irrelevant).
     The correspondence MEASURES the recursion depth of the model (minimal sufficient fuel) against
     the proved bound on generated registries (C09's generators + the F55 shapes) and checks that the
     real `is_compatible` / `types_overlap` terminate on them with the model's answers.
@@ -31,7 +31,7 @@ from vplib.props import c18gen
 
 MANIFEST = dict(
     category="proof",
-    text="PARTIAL. PROVED (Coq, on the executable models that C09/C17 tie to the code by differential execution) - termination bounds of the front end's recursive algorithms, nothing else: (1) check_rel_terminates, in full, recursive types included: for every registry whose ids are topologically ordered (what Program::register_* builds bottom-up; back-references are Cycle(depth)) with n types, check_type_relation as in /repo (assumptions recorded for unions AND callables, retracted on failure, two stacks - and every model variant that records the callable assumption), both modes, every pair of ids, answers within fuel B(n) = n^2(4n+5)+4n+4, i.e. its recursion depth is at most B(n); general form from any reachable state with the measure (unassumed pairs, pair weight); both hypotheses are necessary: without the callable assumption (the code before e7dcc7d, finding F55) NO fuel is enough on a 5-type registry (check_rel_diverges_without_callable_assumption, for all fuel), and an id cycle through the tuple table exceeds 100 B(n); (2) contains_cycle terminates within n+1; union_type_ids is not recursive; (3) parse_string_content with its position bookkeeping is total and its located error lies inside the segment and starts at the offending backslash (escape_error_offset_in_range; the span's END can fall inside a multi-byte character - latent, the caller drops the value); normalize_blocks is structurally recursive (the statement records only that); print is total (re-exported from C17). NOT PROVED: termination of intersect_types / compute_complement / subtract_one (their results are fed back as operands; recursion depth is measured on every run against the candidate 2n+2, never exceeded); anything about parser.rs / compiler.rs. SEARCHED ONLY, not proved: totality of the nom parser and of the compiler driver (no panic / abort / non-termination on texts of bracket nesting <= 100) and in-range, line/column-consistent positions of parse errors - robustness search on the real parse + Compiler::compile in watchdogged child processes (8 MiB stack, 5 s CPU per case, timeouts confirmed in isolation) over repository sources, token- and character-level mutants, prefixes, nesting amplification to depth 100, string-scanner stress, arbitrary text, grammar-generated programs; determinism checked on a re-run sample. The parser has no nesting-depth guard (none to model); known finding F77: parse time exponential in '(' nesting depth.",
+    text="PARTIAL. PROVED (Coq, on the executable models that C09/C17 tie to the code by differential execution) - termination bounds of the front end's recursive algorithms, nothing else: (1) check_rel_terminates, in full, recursive types included: for every registry whose ids are topologically ordered (what Program::register_* builds bottom-up; back-references are Cycle(depth)) with n types, check_type_relation as in /repo (assumptions recorded for unions AND callables, retracted on failure, two stacks - and every model variant that records the callable assumption), both modes, every pair of ids, answers within fuel B(n) = n^2(4n+5)+4n+4, i.e. its recursion depth is at most B(n); general form from any reachable state with the measure (unassumed pairs, pair weight); both hypotheses are necessary: without the callable assumption (the code before e7dcc7d, finding F55) NO fuel is enough on a 5-type registry (check_rel_diverges_without_callable_assumption, for all fuel), and an id cycle through the tuple table exceeds 100 B(n); (2) narrowing: contains_cycle terminates within n+1; intersect_types / intersect_pair (incl. the exact-meet arms for callable and process types), in full: on every registry with topologically ordered ids and in-range tuple ids, structural fuel 2n+2 and relation fuel B(n) suffice for every pair of ids - the registry grows during the run but the recursion descends ids of the starting registry only, and the relation checks run on such ids (check_rel_fuel_enough and contains_cycle are proved WINDOWED: only the ids below K need be ordered, the bound is in K); compute_complement / subtract_one: recursion depth at most 2n+2, stated as irrelevance of the structural fuel beyond the bound for every relation fuel (results are fed back as operands; the measure is the id of the narrowed side, which never is a result) - if any structural fuel >= 2n+2 answers, 2n+2 gives the same answer; union_type_ids is not recursive; (3) parse_string_content with its position bookkeeping is total and its located error lies inside the segment and starts at the offending backslash (escape_error_offset_in_range; the span's END can fall inside a multi-byte character - latent, the caller drops the value); normalize_blocks is structurally recursive (the statement records only that); print is total (re-exported from C17). NOT PROVED: that a relation fuel given in n alone suffices for the relation checks made INSIDE compute_complement (they see ids registered during the run; the model's minimal structural fuel is measured on every run against the proved 2n+2 with a large relation fuel); anything about parser.rs / compiler.rs. SEARCHED ONLY, not proved: totality of the nom parser and of the compiler driver (no panic / abort / non-termination on texts of bracket nesting <= 100) and in-range, line/column-consistent positions of parse errors - robustness search on the real parse + Compiler::compile in watchdogged child processes (8 MiB stack, 5 s CPU per case, timeouts confirmed in isolation) over repository sources, token- and character-level mutants, prefixes, nesting amplification to depth 100, string-scanner stress, arbitrary text, grammar-generated programs; determinism checked on a re-run sample. The parser has no nesting-depth guard (none to model); known finding F77: parse time exponential in '(' nesting depth.",
     design_ref="§6 (was: not applicable), §5 C09/C17 models",
     note="A total Gallina function proves nothing about Rust panics: the theorems are termination bounds of modelled algorithms only; everything about parser.rs/compiler.rs is a search result. Trusted: Coq kernel, extraction, OCaml driver, Rust harness (child processes, /proc CPU watchdog), generators. Timeouts are confirmed by an isolated re-run before they count.",
     technique="Coq proof (fuel-sufficiency / termination bounds on executable models) + measured model recursion depth vs bound + robustness search of the real front end in watchdogged child processes with crash / timeout / position / determinism oracles",
@@ -517,10 +517,14 @@ def model_layer(ctx, ok):
             hist_d[min(d // 4 * 4, 40)] = hist_d.get(min(d // 4 * 4, 40), 0) + 1
             if d > worst["rel"][0]:
                 worst["rel"] = (d, bound, line)
+        hyp = pm["topo"][0] == "1" and pm.get("closed", ["1"])[0] == "1"
         for d, bound in pm.get("narrowdepths", []):
             narrow_queries += 1
             if d == "over" or int(d) > int(bound):
                 narrow_over += 1
+                if hyp:
+                    # C18_intersect_types_terminates / C18_complement_bound_suffices: the model never needs more
+                    over_bound.append((line, m, "narrow"))
                 continue
             if int(d) > worst["narrow"][0]:
                 worst["narrow"] = (int(d), int(bound), line)
@@ -547,9 +551,9 @@ def model_layer(ctx, ok):
         "max_model_recursion_depth_check_rel": worst["rel"][0], "bound_at_that_registry": worst["rel"][1],
         "worst_case_check_rel": worst["rel"][2],
         "check_rel_queries_measured": rel_queries, "check_rel_depth_hist": {str(k): v for k, v in sorted(hist_d.items())},
-        "max_model_recursion_depth_narrow": worst["narrow"][0], "narrow_candidate_bound_2n+2_at_that_registry": worst["narrow"][1],
-        "narrow_queries_measured": narrow_queries, "narrow_depth_over_candidate_bound": narrow_over,
-        "narrow_note": "intersect_types / compute_complement: depth is MEASURED only (no theorem); contains_cycle has a theorem",
+        "max_model_recursion_depth_narrow": worst["narrow"][0], "narrow_bound_2n+2_at_that_registry": worst["narrow"][1],
+        "narrow_queries_measured": narrow_queries, "narrow_depth_over_proved_bound": narrow_over,
+        "narrow_note": "intersect_types: fuel 2n+2 proved sufficient (C18_intersect_types_terminates); compute_complement: structural fuel beyond 2n+2 proved irrelevant (C18_complement_fuel_irrelevant); the measured minimal fuel must never exceed 2n+2",
         "registries_outside_topo_hypothesis": nontopo,
         "depth_over_bound": len(over_bound), "registries_real_agrees": agrees, "disagreements": disagreements,
     })
